@@ -104,7 +104,9 @@ fn conversion_lines(out: &mut Out, sid0: u64) -> u64 {
 pub fn run_lines(args: &Args, mut out: Out) {
     let n = args.u64("n", 500);
     let mut r = args.rng();
-    const NAMES: [&str; 8] = ["a", "b", "msg", "x_1", "http_method", "path", "code", "zz"];
+    // (tag names are strings like any other: quotes, backslashes, control characters, non-ASCII, the empty name)
+    const NAMES: [&str; 16] = ["a", "b", "msg", "x_1", "http_method", "path", "code", "zz", "a\"b", "back\\slash", "line\nbreak", "tab\t", "", "\u{e9}t\u{e9}",
+                               "sp ace", "x\":1,\"inj"];
     let classes: Vec<char> = vec![
         '"', '\\', '\n', '\r', '\t', '\0', '\u{1}', '\u{8}', '\u{c}', '\u{1f}', '\u{7f}', '\u{80}', '\u{9f}', 'a', 'Z', ' ', '/', '\u{e9}', '\u{200b}', '\u{2028}', '\u{2029}',
         '\u{feff}', '\u{fffd}', '\u{1F600}', '\u{10FFFF}', '{', '}', ',', ':', '\u{301}', '\u{e0001}',
